@@ -85,7 +85,7 @@ def run(facts, res):
                     pt = peel(l.term)
                     if pt[0] == "call" and callee_name(pt) == "next":
                         names = [callee_name(x) for x in walk(pt) if x[0] == "call"]
-                        if any(x[0] == "field" and x[2] == "documents" for x in walk(pt)) and \
+                        if any(x[0] == "field" and x[2] == "documents" for x in walk(pt)) and cfg.is_loop_header(pt[3]) and \
                                 not (set(names) & {"take", "skip", "filter", "step_by", "take_while", "skip_while"}):
                             whole = True
                             hdr = pt[3]
